@@ -37,6 +37,16 @@ def variants():
                 for faults in (0, 1):
                     sends = [(1, 0, '0'), (1, 0, '0'), (1, 0, '0'), (1, 0, '0'), (10, -1, fc), (10, 1, fc)]
                     out.append(('backlog/W%d/%s/%s' % (W, fn, 'wfault' if faults else 'nofault'), W, -1, 0, faults, sends))
+        # virtual thread carries a message and a user event while every worker is busy
+        if W in (1, 2):
+            for faults in (0, 1):
+                sends = [(1, W, '0'), (1, W, '0')]
+                out.append(('pvtmix/W%d/%s' % (W, 'wfault' if faults else 'nofault'), W, -1, 0, faults, sends))
+        # a thread that attached as pool thread 0 and left again sends as an outside thread (thread 0 is stopped then)
+        if W == 2:
+            for fn, fc in FL:
+                sends = [(1, 0, fc), (1, 1, fc), (1, 0, fc)]
+                out.append(('attach/W%d/%s' % (W, fn), W, 0, 2, 0, sends))
         # pool virtual thread as destination
         for faults in (0, 1):
             sends = [(1, W, '0'), (1, W, '0'), (2, W, '0'), (10, W, '0'), (1, 0, '0')]
@@ -53,7 +63,7 @@ def gen_header(path, vs):
                     ', '.join('{ %d, %d, %s }' % s for s in sends)))
         f.write('};\nconst sc_scenario_t sc_scenarios[] = {\n')
         for i, v in enumerate(vs):
-            f.write('\t{ "%s", %s, %d },\n' % (v[0], 'backlog_scenario' if v[0].startswith('backlog/') else 'msg_scenario', i))
+            f.write('\t{ "%s", %s, %d },\n' % (v[0], {'backlog': 'backlog_scenario', 'pvtmix': 'pvtmix_scenario', 'attach': 'attach_scenario'}.get(v[0].split('/')[0], 'msg_scenario'), i))
         f.write('};\nconst int sc_nscenarios = %d;\n' % len(vs))
 
 
@@ -63,7 +73,7 @@ def plan(tier, vs):
         name, W, notrun, mode, faults, sends = v
         kind = name.split('/')[0]
         if tier == 'quick':
-            if kind == 'backlog':
+            if kind in ('backlog', 'pvtmix', 'attach'):
                 jobs.append((name, 2, 1))
             elif kind == 'msgS':
                 jobs.append((name, 1 if faults else 2, 1))
@@ -74,7 +84,7 @@ def plan(tier, vs):
             elif W == 3 and not faults and notrun < 0 and (kind == 'pvt' or name.split('/')[2] in ('0', 'ALL')):
                 jobs.append((name, 1, 0))
         else:
-            if kind == 'backlog':
+            if kind in ('backlog', 'pvtmix', 'attach'):
                 jobs.append((name, 3, 2))
             elif kind == 'msgS' or W == 1:
                 jobs.append((name, 2 if faults else 3, 2))
